@@ -168,11 +168,32 @@ package maintenance
 // The retention tiers handed to Rotate are exactly the configured ones: every tier's
 // timeout is a valid duration and its target disk is the configured one - a tier
 // that cannot be read stops the run (an empty tier would become a delete rule).
+//@ ghost var dbRotations int
+//@ ghost var dbRotationFailed bool
 //@ func rotateDB [C19]
 //@   flag checks=-index,-assert
-//@   requires settingUsed == constmap("Str", false)
+//@   ghostinit settingUsed = constmap("Str", false)
+//@   ghostset dbRotations = dbRotations + 1
+//@   ghostset dbRotationFailed = dbRotationFailed || result != nil
+//@   modifies everything
 //@   at maintenance.Rotate tiers-are-the-configured-ones: len(arg3) == len(dbObject.TTLPolicy) && (forall k int :: 0 <= k && k < len(arg3) ==> durOk(dbObject.TTLPolicy[k].Timeout) && arg3[k].TTL == durOf(dbObject.TTLPolicy[k].Timeout) && arg3[k].MoveTo == dbObject.TTLPolicy[k].MoveTo)
 //@   loop 1:
 //@     invariant rangeindex >= -1 && len(ttlPolicy) == len(dbObject.TTLPolicy)
 //@     invariant forall k int :: 0 <= k && k <= rangeindex ==> durOk(dbObject.TTLPolicy[k].Timeout) && ttlPolicy[k].TTL == durOf(dbObject.TTLPolicy[k].Timeout) && ttlPolicy[k].MoveTo == dbObject.TTLPolicy[k].MoveTo
 //@     modifies elems(ttlPolicy)
+
+// Every configured database is rotated, in order, and the first failure stops the run
+// with that error - a success never does: after a run without error all of them went
+// through rotateDB (the settings of one database say nothing about the next; the
+// name bookkeeping starts afresh for each).
+//@ func RotateAll [C19]
+//@   flag checks=-index,-assert
+//@   modifies everything
+//@   ensures every-database-rotated: result == nil ==> dbRotations == old(dbRotations) + len(base)
+//@   ensures a-failed-rotation-is-reported: !old(dbRotationFailed) && result == nil ==> !dbRotationFailed
+//@   loop 1:
+//@     modifies everything
+//@     invariant rangeindex >= -1 && rangeindex + 1 <= len(base) && len(base) == old(len(base))
+//@     invariant dbRotations == old(dbRotations) + rangeindex + 1
+//@     invariant !old(dbRotationFailed) ==> !dbRotationFailed
+//@     exit every-database-rotated: dbRotations == old(dbRotations) + len(base)
